@@ -543,6 +543,8 @@ def set_data_dependent_options(args):
 
     args.resolve_ambiguous = 'monoexon_and_fsm' if args.fl_data else 'default'
     args.requires_polya_for_construction = False
+    # grouping by file name is implied for experiments that consist of several files; decided per experiment in process_sample
+    args.implicit_read_group = args.read_group is None
     if args.read_group is None and args.input_data.has_replicas():
         args.read_group = "file_name"
     args.use_technical_replicas = args.read_group == "file_name"
